@@ -159,6 +159,10 @@ fn random_no_k1(src: &mut Src, obs: &mut Obs) -> Res {
     }
 }
 
+fn box_small(obs: &mut Obs, thorough: bool) -> Res {
+    crate::props::c01::small_box(obs, thorough, |q, t, d, o| check(q, t, d, o))
+}
+
 fn direct(case: &Value, obs: &mut Obs) -> Res {
     let (q, text, doc) = parse_direct(case)?;
     check(&q, &text, &doc, obs)
@@ -175,6 +179,7 @@ pub fn prop() -> Prop {
             "a breadth-first visiting order of a descendant segment is accepted as valid (RFC 9535 2.5.2.2); any other order is reported",
         ],
         subs: vec![
+            Sub { name: "box-small", kind: Kind::Exhaustive(box_small) },
             Sub {
                 name: "random-order",
                 kind: Kind::Random { f: random_order, quick: 200_000, thorough: 4_000_000, len: 400 },
